@@ -240,6 +240,68 @@ def oracle(ctx, n):
     return cnt
 
 
+def extra_cases(ctx, n):
+    """code blocks right after a table (table plugin), and code at the very end of a file pulled in by the include directive
+    (no final line end: included files are not normalised)"""
+    import mistune, tempfile, shutil, os
+    from mistune.directives import FencedDirective, RSTDirective, Include
+    cnt = 0
+    ast_t = mistune.create_markdown(renderer=None, plugins=["table", "def_list", "footnotes"])
+    def codes(toks):
+        for t in toks:
+            if t["type"] == "block_code":
+                yield t
+            if "children" in t:
+                yield from codes(t["children"])
+    for _ in range(n):
+        body = [l for l in body_lines(ctx.rng, "`", 3, allow_blank=False, allow_lead_tab=False) if not is_closer(l, "`", 3) and l.strip()] or ["x"]
+        table = ctx.rng.choice(["| a | b |\n|---|---|\n| c | d |\n", "a | b\n--- | ---\nc | d\n", "| h |\n|---|\n"])
+        gap = "\n" * ctx.rng.randint(1, 3)
+        if ctx.rng.random() < 0.5:
+            doc = table + gap + "".join("    " + l + "\n" for l in body)
+            exp = "\n".join(body)
+        else:
+            ind = " " * ctx.rng.randint(0, 3)
+            doc = table + gap + ind + "```\n" + "".join(ind + l + "\n" for l in body) + ind + "```\n"
+            exp = "".join(l + "\n" for l in body)
+        cnt += 1
+        try:
+            found = list(codes(ast_t(doc)))
+        except Exception as e:
+            ctx.fail("exception", "conversion raised %r" % e, {"kind": "after-table", "container": "top", "doc": doc}); continue
+        if len(found) != 1 or found[0]["raw"].rstrip("\n") != exp.rstrip("\n"):
+            ctx.fail("after-table:differs", "code after a table is not reproduced verbatim: expected %r, got %r (document %r)" % (exp, [f["raw"] for f in found], doc), {"kind": "after-table", "container": "top", "doc": doc, "expected": exp})
+    tmp = tempfile.mkdtemp(prefix="verif-c11-")
+    try:
+        for style in ("rst", "fenced"):
+            D = RSTDirective if style == "rst" else FencedDirective
+            md = mistune.create_markdown(renderer=None, plugins=[D([Include()])])
+            for _ in range(max(4, n // 20)):
+                c = ctx.rng.choice("`~"); k = ctx.rng.randint(3, 5)
+                body = [l for l in body_lines(ctx.rng, c, k, allow_lead_tab=False) if not is_closer(l, c, k)] or ["print(1)"]
+                closed = ctx.rng.random() < 0.7
+                content = c * k + "\n" + "".join(l + "\n" for l in body) + (c * k if closed else "")
+                if not closed:
+                    content = content.rstrip("\n")
+                with open(os.path.join(tmp, "inc.md"), "w", newline="") as f:
+                    f.write(content)            # no final line end
+                with open(os.path.join(tmp, "main.md"), "w", newline="") as f:
+                    f.write((".. include:: inc.md\n" if style == "rst" else "```{include} inc.md\n```\n"))
+                cnt += 1
+                try:
+                    toks = md.read(os.path.join(tmp, "main.md"))[0]
+                except Exception as e:
+                    ctx.fail("exception", "reading a file that includes a fenced block raised %r" % e, {"kind": "included", "container": "top", "doc": content}); continue
+                found = list(codes(toks))
+                exp = "".join(l + "\n" for l in body)
+                if len(found) != 1 or found[0]["raw"].rstrip("\n") != exp.rstrip("\n"):
+                    ctx.fail("included-file:differs", "fenced code at the end of an included file (no final line end) is not reproduced verbatim: expected %r, got %r (file %r)" % (exp, [f["raw"] for f in found], content),
+                             {"kind": "included", "container": "top", "doc": content, "expected": exp})
+    finally:
+        shutil.rmtree(tmp, ignore_errors=True)
+    return cnt
+
+
 def template_tie(ctx):
     """block_code / codespan render methods are literal + escape(code) + literal (probed with adversarial code)"""
     import mistune
@@ -285,6 +347,7 @@ def run(ctx):
         tdocs.append((fenced_case(ctx.rng) if r < 0.6 else indented_case(ctx.rng) if r < 0.8 else span_case(ctx.rng))["doc"])
     common.model_tie(ctx, tdocs, "core", "doc")
     n = oracle(ctx, 6000 if ctx.quick() else 80000)
+    n += extra_cases(ctx, 400 if ctx.quick() else 4000)
     if ctx.broken and not [f for f in ctx.failures if not ctx.is_known(f["signature"])]:
         ctx.notes.append("search mode entered")
         n += oracle(ctx, 60000)
